@@ -161,7 +161,7 @@ def build_trace(tid: int, source: str, opts: dict, result: Optional[str], error:
         if "surface" in want and proj.surface(source) is not None:
             check["surface"] = True
             inp["surf"] = sorted(names(n) for n in proj.surface(source))
-            ret["surf"] = sorted(names(n) for n in (proj.surface(result) or set()))
+            ret["surf"] = sorted(names(n) for n in (proj.bound_surface(result) or set()))
         if "preserved" in want and proj.defined_names(source) is not None:
             check["preserved"] = True
             have = proj.defined_names(source)
